@@ -377,13 +377,13 @@ def _gauss(st, g):
             # ---- product / divide of two Gaussians sharing variables (through canonical forms)
             if k == 2 and ci % 3 == 0:
                 for S2 in covs(2)[::5]:
-                    for names2 in (["B", "C"], ["A", "B"], ["C", "D"]):
+                    for names2 in (["B", "C"], ["A", "B"], ["C", "D"], ["B", "A"], ["C", "B"], ["C", "A"]):
                         case = dict(base, sub=["product", names2, S2.tolist()])
                         st.evals += 1
                         st.transitions += 1
                         try:
                             a = fresh()
-                            b = GaussianDistribution(list(names2), [0.5, -1.0], S2.copy())
+                            b = GaussianDistribution(list(names2), [0.5, -1.0], S2.copy())  # operand orders that differ from the combined scope order are included
                             ca, cb = a.to_canonical_factor(), b.to_canonical_factor()
                             pr = ca.product(cb, inplace=False)
                             allv = list(names) + [v for v in names2 if v not in names]
